@@ -222,3 +222,24 @@ void h_bends_translation(void)
     VERIF_CANARY;
 }
 #endif
+
+/* ------------------------------------------------------------------------------------------------
+ * Node::firstPointAbove / Node::firstPointBelow (libavoid/scanline.cpp) are mirror twins: the limit found looking DOWN along `dim` is minus the limit
+ * found looking UP in the scene mirrored along `dim` (x -> -x turns an obstacle [lo,hi] into [-hi,-lo], "below" into "above").  And looking up is:
+ * the greatest obstacle edge hi <= pos among the obstacles the point is not in line with (an edge exactly at pos counts), -DBL_MAX if none.  BOUNDED: <= 2 nodes. */
+#if defined(JOB_first_point)
+double w_first_point(int up, unsigned dim, unsigned k, double pos, double selfAlt, double lo0, double hi0, double alo0, double ahi0, double lo1, double hi1, double alo1, double ahi1);
+void h_first_point(void)
+{
+  unsigned dim, k; double pos, selfAlt, lo[2], hi[2], alo[2], ahi[2];
+  __CPROVER_assume(dim < 2 && k <= 2 && !__CPROVER_isnand(pos) && !__CPROVER_isnand(selfAlt));
+  for (int i = 0; i < 2; ++i) __CPROVER_assume(!__CPROVER_isnand(lo[i]) && !__CPROVER_isnand(hi[i]) && !__CPROVER_isnand(alo[i]) && !__CPROVER_isnand(ahi[i]));
+  double up = w_first_point(1, dim, k, pos, selfAlt, lo[0], hi[0], alo[0], ahi[0], lo[1], hi[1], alo[1], ahi[1]);
+  double dn = w_first_point(0, dim, k, -pos, selfAlt, -hi[0], -lo[0], alo[0], ahi[0], -hi[1], -lo[1], alo[1], ahi[1]);
+  __CPROVER_assert(dn == -up, "SPEC firstPointBelow in the mirrored scene is minus firstPointAbove in the scene (mirror twins, boundary cases included)");
+  double want = -1.7976931348623157e308;
+  for (unsigned i = 0; i < 2; ++i) if (i < k && !(selfAlt == alo[i] || selfAlt == ahi[i]) && hi[i] <= pos && hi[i] > want) want = hi[i];
+  __CPROVER_assert(up == want, "SPEC firstPointAbove: the greatest obstacle edge at or before the point, obstacles in line with the point ignored");
+  VERIF_CANARY;
+}
+#endif
